@@ -7,6 +7,7 @@ package signature
 //@   inline
 //@   property C09
 //@   loop 1 invariant parsed-so-far-non-nil: forall j :: 0 <= j && j <= $ri ==> #certs[j] != nil
+//@   loop 1 invariant parsed-keys-absent-or-non-nil: forall j :: 0 <= j && j <= $ri ==> (tagof(#certs[j].PublicKey) != 0 ==> valof(#certs[j].PublicKey) != nil)
 //@
 //@ pure xsig() = as(signedRes, "xmlsig.Signature")
 //@ func signature.Create
